@@ -1730,6 +1730,10 @@ mod crypto {
 
     impl Drop for CryptoWriter<'_> {
         fn drop(&mut self) {
+            if self.failed {
+                // The failure has already been reported to the caller of write/flush.
+                return;
+            }
             self.flush().expect("The implicit flush in the Drop of CryptoWriter failed. This causes this panic. If you want to be able to handle this, make sure to call flush() manually. If a manual flush has failed, Drop won't panic.");
         }
     }
@@ -1754,9 +1758,6 @@ mod crypto {
         /// data to the underlying dyn Write. When later reading data, an entire chunk must be read
         /// from file before any plaintext is produced.
         pub fn flush_final(mut self) -> Result<(), SavefileError> {
-            if self.failed {
-                panic!("Call to failed CryptoWriter");
-            }
             self.flush()?;
             Ok(())
         }
@@ -1832,7 +1833,7 @@ mod crypto {
     impl Write for CryptoWriter<'_> {
         fn write(&mut self, buf: &[u8]) -> Result<usize, Error> {
             if self.failed {
-                panic!("Call to failed CryptoWriter");
+                return Err(Error::new(ErrorKind::Other, "Call to failed CryptoWriter"));
             }
             self.buf.extend(buf);
             if self.buf.len() > CRYPTO_BUFSIZE {
@@ -1845,6 +1846,10 @@ mod crypto {
         /// If this fails, there is no recovery. The buffered data will have been
         /// lost.
         fn flush(&mut self) -> Result<(), Error> {
+            if self.failed {
+                // A chunk has been partially written. Nothing written after it could ever be read back.
+                return Err(Error::new(ErrorKind::Other, "Call to failed CryptoWriter"));
+            }
             self.failed = true;
             let mut offset = 0;
 
